@@ -19,3 +19,57 @@ Theorem c08_filter_is_conjunction_of_receiver_queries :
     ca_matches a (fold_left ca_and (map access_of qs) ca_true) = forallb (qmatch a) qs.
 Proof. exact conjoined_filter_meaning. Qed.
 Print Assumptions c08_filter_is_conjunction_of_receiver_queries.
+
+Require Import EV.SlotMap EV.Store EV.Member EV.Listen.
+Open Scope N_scope.
+
+(* the handlers a delivery runs: for a targeted event, the listener list of the archetype the
+   target lives in NOW (its location is looked up at delivery time); on any world satisfying the
+   listener invariant this list holds, without repetition, exactly the live handlers that receive
+   an event with this index and whose filter (the conjunction of their receiver queries, above)
+   matches that archetype's component set; for a global event, exactly the live handlers
+   receiving it *)
+Theorem c08_delivery_reaches_exactly_the_matching_live_handlers :
+  forall (w : world) (it : qitem), HL w ->
+    NoDup (delivered_to w it) /\
+    forall hk, In hk (delivered_to w it) <->
+      if qi_targeted it then
+        exists loc a h ek, sm_get (qi_target it) (w_ents w) = Some loc /\ arch_at w (fst loc) = Some a /\
+          hlive w hk h /\ h_recv h = RvTargeted ek /\ fst ek = qi_idx it /\ ca_matches (arch_has a) (h_filter h) = true
+      else exists h ek, hlive w hk h /\ h_recv h = RvGlobal ek /\ fst ek = qi_idx it.
+Proof. exact delivered_to_exact. Qed.
+Print Assumptions c08_delivery_reaches_exactly_the_matching_live_handlers.
+
+(* deliver_one runs its handler loop over exactly that list *)
+Theorem c08_deliver_one_runs_that_list :
+  forall (beh : hinfo -> logent -> N -> script) (it : qitem) (w : world),
+    (if qi_targeted it then get_by_index (w_tev w) (qi_idx it) <> None /\ sm_get (qi_target it) (w_ents w) <> None /\
+                            (forall loc, sm_get (qi_target it) (w_ents w) = Some loc -> slab_get (w_archs w) (fst loc) <> None)
+     else get_by_index (w_gev w) (qi_idx it) <> None /\ nget (w_glists w) (qi_idx it) <> None) ->
+    exists tag kind loc, deliver_one beh it w =
+      (let '(w1, ev, sent, taken, fl) := run_handlers beh (delivered_to w it) w it tag loc nil in
+         match fl with
+         | Some f => (sent, (if taken then w1 else ev_drop w1 (qi_targeted it) tag ev), Some f)
+         | None => if taken then (sent, w1, None) else
+             match kind with
+             | KNormal => (sent, ev_drop w1 (qi_targeted it) tag ev, None)
+             | _ => let '(w3, f) := fail_of (builtin_effect kind ev loc w1) in (sent, w3, f)
+             end
+         end).
+Proof. exact deliver_one_uses_delivered_to. Qed.
+Print Assumptions c08_deliver_one_runs_that_list.
+
+(* the listener invariant HL (with the storage and registry invariants) holds in every world
+   reachable through any sequence of calls, for every handler behaviour, and is re-established
+   after every single delivery inside a flush *)
+Theorem c08_listener_invariant_in_every_reachable_world :
+  forall (beh : hinfo -> logent -> N -> script) (fuel p : N) (ops : list top_all),
+    AI (fold_left (run_top_all beh) ops (world0 fuel p)).
+Proof. exact reachable_AI. Qed.
+Print Assumptions c08_listener_invariant_in_every_reachable_world.
+
+Theorem c08_listener_invariant_after_every_delivery :
+  forall (beh : hinfo -> logent -> N -> script) (it : qitem) (w : world),
+    Effects.WInv w -> HL w -> HL (snd (fst (deliver_one beh it w))).
+Proof. exact deliver_one_HL. Qed.
+Print Assumptions c08_listener_invariant_after_every_delivery.
